@@ -640,6 +640,43 @@ func TestCommandLinesNeverCrash(t *testing.T) {
 			args = append(args, rapid.SampledFrom(pool).Draw(t, "arg"))
 		}
 		code, err := checkCLI(dir, args)
+		if err == nil && code == 0 {
+			// the argument taken for the specification is the first one that does not start with '-': a rejected
+			// specification must not end in exit status 0 (unless -help/-version are asked for)
+			info := false
+			file := ""
+			var positional []string
+			for i := 0; i < len(args); {
+				a := args[i]
+				if a == "--" {
+					positional = args[i+1:]
+					break
+				}
+				if len(a) < 2 || a[0] != '-' {
+					positional = args[i:]
+					break
+				}
+				name := strings.TrimLeft(a, "-")
+				info = info || name == "help" || name == "version" || name == "h"
+				if (name == "out" || name == "name") && !strings.Contains(a, "=") {
+					i += 2 // the flag takes the next argument as its value
+					continue
+				}
+				i++
+			}
+			for _, p := range positional {
+				if !strings.HasPrefix(p, "-") {
+					file = p
+					break
+				}
+			}
+			switch file {
+			case "bad.ebnf", "sem.ebnf", "pat.ebnf", "conf.ebnf", "empty.ebnf", "bin.ebnf", "adir", "missing.ebnf":
+				if !info {
+					err = fmt.Errorf("emerge %q exits with status 0 although %s cannot be accepted", args, file)
+				}
+			}
+		}
 		cls := []string{fmt.Sprintf("cli_exit_%d", code)}
 		rec.Case("cli:"+strings.Join(args, "\x00"), code != 0 && n > 0, cls...)
 		if code != 0 {
